@@ -28,7 +28,7 @@ impl Property for C01 {
         }
     }
     fn required_classes(&self) -> Vec<&'static str> {
-        vec!["nesting>=2", "bound<=0-reached", "shadowing", "let-in-loop-body", "loop-in-while", "reads-device", "repeat", "bits()"]
+        vec!["nesting>=2", "bound<=0-reached", "shadowing", "let-in-loop-body", "loop-in-while", "reads-device", "repeat", "bits()", "bits(k>=33)", "bits(0)"]
     }
     fn assumptions(&self) -> Vec<&'static str> {
         vec![
@@ -38,8 +38,22 @@ impl Property for C01 {
     }
     fn run(&self, s: &Streams) -> CaseOut {
         let mut out = CaseOut::new();
-        let cfg = flow_cfg();
+        let mut cfg = flow_cfg();
+        // one case in twelve has a wide bus so that bits(k,e) with k up to 64 occurs
+        cfg.bus = Ch::new(&s[1]).chance(1, 12);
         let built = gen_case(&mut Ch::new(&s[0]), &cfg);
+        out.class_if(cfg.bus, "wide-bus");
+        built.prog.visit_stmts(&mut |st, _| {
+            if let crate::model::Stmt::Row(_, es) | crate::model::Stmt::Repeat(_, _, es) = st {
+                for e in es {
+                    if let crate::model::Entry::Bits(k, _) = e {
+                        out.class_if(*k >= 33, "bits(k>=33)");
+                        out.class_if(*k == 64, "bits(64)");
+                        out.class_if(*k == 0, "bits(0)");
+                    }
+                }
+            }
+        });
         let text = built_text(&built);
         let spec = gen_spec(
             &mut Ch::new(&s[2]),
